@@ -508,6 +508,7 @@ type replayDoc struct {
 
 func run(c *props.Ctx) {
 	pairs(c)
+	runConc(c)
 	depth := 6
 	if !c.Quick() {
 		depth = 8
@@ -546,6 +547,11 @@ func replay(c *props.Ctx, raw json.RawMessage) (bool, string) {
 	var d replayDoc
 	if err := json.Unmarshal(raw, &d); err != nil {
 		return false, err.Error()
+	}
+	if d.Kind == "conc" {
+		var cr concReplay
+		_ = json.Unmarshal(raw, &cr)
+		return replayConc(cr.Choices)
 	}
 	if d.Kind != "history" {
 		return false, "pair cases are re-evaluated by the quick check itself"
